@@ -292,7 +292,15 @@ pub fn do_send<ES: evenio::event::EventSet>(s: &Sender<'static, ES>, req: &Req) 
                 a.set(v + 1);
                 v
             });
-            let data: &'static mut [u8] = s.alloc_slice(len, |i| arena_byte(no, i));
+            // odd lengths go through `alloc_str` (ASCII pattern), even ones through `alloc_slice`
+            let data: &'static [u8] = if len % 2 == 1 {
+                let text: String = (0..len).map(|i| arena_byte(no, i) as char).collect();
+                let st: &'static mut str = s.alloc_str(&text);
+                unsafe { &*(st.as_bytes() as *const [u8]) }
+            } else {
+                let sl: &'static mut [u8] = s.alloc_slice(len, |i| arena_byte(no, i));
+                sl
+            };
             s.send(G3 { pay: p, data, alloc_no: no, has_data: true });
         }
         Req::Fwd { data, alloc_no, ent } => s.send(G3 { pay: pay(ent), data, alloc_no, has_data: true }),
